@@ -101,6 +101,34 @@ var compileSources = []string{
 	"(and (lt m 2) (== n 1))",
 }
 
+// the same kind of sources in infix notation (configs with InfixNotation pick from this list; a source index means
+// the source of the config's own notation)
+var compileSourcesInfix = []string{
+	"x && (y || z) && n + 1 > m",
+	";;;; optimize:false\nx && (y || z) && n + 1 > m",
+	"if(x, n + 1, m * 2) >= 2 || f(z)",
+	"!x || in(n, [1 2 3]) && s == \"a\"",
+	"f(n) + p(m) * 2 - n % 3 == 0 || y",
+	";;;; reduce_nesting:false, reordering:false\nx && (y && (z && (x || y)))",
+	"(x || y) && (n > m) && (s != \"b\") && overlap(l, [2 5])",
+	"; note\n;;;; fast_evaluation:false\nif(n > m, f(x), !y) || [1 2] == l",
+	"between(n, 0, K) && KT || g(n, m) > 1",
+	"n * (m + 2) / 3 - -1 > 0 && !(x && !y)",
+	"f(f(f(n))) == n && p(x) || h(y)",
+	"x",
+	"(((n + m)))* 2 >= n || ((x))",
+	"u && w > 0",
+	"\"a\" == s || in(s, [\"a\" \"b\"]) && in(1, [1])",
+	"x || y || z || n > 1 || m > 1 || f(x)",
+}
+
+func sourcesFor(cc *eval.Config) []string {
+	if cc.CompileOptions[eval.InfixNotation] {
+		return compileSourcesInfix
+	}
+	return compileSources
+}
+
 func baseConfig(r *rand.Rand, kind int) *eval.Config {
 	l := &Log{Phase: "eval"}
 	cc, _ := newConf(ConfOpts{Mask: []int{15, 0, 5, 10}[kind%4], Undefined: kind%3 == 1}, l)
@@ -132,6 +160,9 @@ func baseConfig(r *rand.Rand, kind int) *eval.Config {
 			eval.GetOrRegisterKey(cc, v)
 		}
 	}
+	if kind >= 12 {
+		cc.CompileOptions[eval.InfixNotation] = true
+	}
 	return cc
 }
 
@@ -145,7 +176,7 @@ func famCompile() {
 	}
 	for i := 0; i < nseq; i++ {
 		id++
-		cfgs := []*eval.Config{baseConfig(r, r.Intn(12)), baseConfig(r, r.Intn(12))}
+		cfgs := []*eval.Config{baseConfig(r, r.Intn(16)), baseConfig(r, r.Intn(16))}
 		steps := []interface{}{}
 		for s := 0; s < 3+r.Intn(8); s++ {
 			ci := r.Intn(len(cfgs))
@@ -154,7 +185,7 @@ func famCompile() {
 			case 0, 1, 2, 3:
 				si := r.Intn(len(compileSources))
 				before := snapshot(cc)
-				fp := fingerprint(cc, compileSources[si])
+				fp := fingerprint(cc, sourcesFor(cc)[si])
 				after := snapshot(cc)
 				steps = append(steps, M{"op": "compile", "cfg": ci, "src": si, "before": hashOf(before), "after": hashOf(after), "fp": hashOf(fp),
 					"compiled": !strings.HasPrefix(fp, "err:") && !strings.HasPrefix(fp, "panic:"), "panic": strings.HasPrefix(fp, "panic:")})
@@ -207,12 +238,12 @@ func famCompile() {
 	}
 	for i := 0; i < nconc; i++ {
 		id++
-		cc := baseConfig(r, i)
+		cc := baseConfig(r, i%24) // kinds 12.. compile infix sources
 		before := snapshot(cc)
 		// sequential baseline on a private copy
 		want := make([]string, len(compileSources))
 		ref := eval.CopyConfig(cc)
-		for si, s := range compileSources {
+		for si, s := range sourcesFor(cc) {
 			want[si] = hashOf(fingerprint(ref, s))
 		}
 		var wg sync.WaitGroup
@@ -225,7 +256,7 @@ func famCompile() {
 				rr := rand.New(rand.NewSource(seed))
 				for k := 0; k < 12; k++ {
 					si := rr.Intn(len(compileSources))
-					fp := hashOf(fingerprint(cc, compileSources[si]))
+					fp := hashOf(fingerprint(cc, sourcesFor(cc)[si]))
 					got[g] = append(got[g], M{"src": si, "fp": fp, "want": want[si]})
 				}
 			}(g, r.Int63())
